@@ -394,6 +394,10 @@ def gen_program(rng):
         elif r < 0.3:
             u = '\\csname %s\\endcsname%s' % (m[0], u[len(m[0]) + 1:].lstrip(' '))
         uses.append('(' + u + ')')
+    if rng.random() < 0.3:
+        # \expandafter over a parameterless macro whose expansion may be empty: the argument then comes from what follows
+        parts.append('\\def\\ez{%s}\\def\\fz#1{[#1]}' % rng.choice(['', '', 'k', 'kl', '{kl}m']))
+        uses.append('(\\expandafter\\fz\\ez %s)' % rng.choice(['xy', 'x', '{xy}z']))
     return ''.join(parts) + ''.join(uses)
 
 
@@ -474,7 +478,7 @@ FIXED = [
     (r'\def\a#1{[#1]}\a xy', '[x]y'), (r'\def\a#1#2{[#2#1]}\a x{yz}w', '[yzx]w'), (r'\def\a#1.{[#1]}\a xy.z', '[xy]z'),
     (r'\def\a#1.#2;{[#2|#1]}\a xy.zw;u', '[zw|xy]u'), (r'\def\a[#1]{(#1)}\a[q]r', '(q)r'), (r'\def\a#1{x##1#1}\a b', 'x#1b'),
     (r'\newcommand{\q}[2][d]{<#1,#2>}\q{x}\q[o]{y}', '<d,x><o,y>'), (r'\def\a{1}\let\c=\a\def\a{2}\c\a', '12'),
-    (r'\def\a{1}{\def\a{2}\a}\a', '21'), (r'\expandafter\def\csname a b\endcsname{7}\csname a b\endcsname', '7'),
+    (r'\def\e{}\def\f#1{(#1)}\expandafter\f\e xy', '(x)y'), (r'\def\a{1}{\def\a{2}\a}\a', '21'), (r'\expandafter\def\csname a b\endcsname{7}\csname a b\endcsname', '7'),
     (r'\def\a#1{(#1)}\def\c{\a}\expandafter\a\c x', '(\\a )x') if False else (r'\def\x{y}\def\a#1{(#1)}\expandafter\a\x z', '(y)z'),
     (r'\def\a#1{#1#1}\a{\a{p}}', 'pppp'),
 ]
